@@ -86,6 +86,9 @@ pub fn run_cli(args: Vec<String>) {
         "faults" => suites::faults(&mut rng, count, &mut out),
         "f6search" => suites::f6search(&mut rng, count, &mut out),
         "jitrun" => suites::jitrun(&mut rng, count, &mut out),
+        "irgen" => suites::irgen(&mut rng, count, &mut out),
+        "optarith" => suites::optarith(&mut rng, count, &mut out),
+        "optdse" => suites::optdse(&mut rng, count, &mut out),
         "irecho" => suites::irecho(&mut rng, count, &mut out),
         "sv" => dsuites::smallvec(&mut rng, count, &mut out),
         "expr" => dsuites::expr(&mut rng, count, &mut out),
